@@ -174,7 +174,11 @@ type World struct {
 	// runs under one of the callers that promise to recover from a panic of the signing machinery (tunnel SendPacket, the oracle's
 	// safeCreateSigning; a transaction is recovered by the SDK). Elsewhere it stays an error return.
 	FailAssignPanic map[int64]bool
-	assignIdx       int
+	// FailAssignSrc: when set for a height, only creations running under that caller are counted (a substring of the Go call
+	// stack: the oracle's safeCreateSigning, the tunnel's SendPacket, the retry in HandleSigningEndBlock, a transaction's runTx),
+	// so that the rarer sources get their share of the faults.
+	FailAssignSrc map[int64]string
+	assignIdx     int
 	Halt     *Halt
 	Divergence string
 	DivergedResp [2]*abci.ResponseFinalizeBlock // the two block responses that differed (first replica, diverging replica)
@@ -204,10 +208,13 @@ var defaultConsensusParams = &cmtproto.ConsensusParams{
 }
 
 func New(ch *core.Chooser, lg *core.Log, st *core.Stats, cfg Config, scratch string) (*World, error) {
-	w := &World{Ch: ch, Log: lg, Stats: st, Cfg: cfg, Blocks: map[int64]*BlockRecord{}, scratch: scratch, FailAssign: map[int64]int{}, FailAssignPanic: map[int64]bool{}}
+	w := &World{Ch: ch, Log: lg, Stats: st, Cfg: cfg, Blocks: map[int64]*BlockRecord{}, scratch: scratch, FailAssign: map[int64]int{}, FailAssignPanic: map[int64]bool{}, FailAssignSrc: map[int64]string{}}
 	// cooperative fault point in x/tss (guarded by the verif build tag in /repo): see FailAssign
 	tsskeeper.VerifFailAfterDequeue = func(ctx sdk.Context) error {
 		if ctx.ExecMode() != sdk.ExecModeFinalize {
+			return nil
+		}
+		if src := w.FailAssignSrc[ctx.BlockHeight()]; src != "" && !strings.Contains(string(stack()), src) {
 			return nil
 		}
 		w.assignIdx++
